@@ -189,23 +189,10 @@ theorem tomlPath_ne_layerPath (n : Name) : tomlPath n ≠ layerPath n := by
   simp [tomlPath, layerPath] at h
   exact tomlName_ne n h
 
-/-- when `<layers>/<n>` is a regular file that has other names, `delete_layer` fails -/
-theorem deleteLayer_hard_fails (root : Bool) (t : FS) (n : Name) (hd : isDirAt t [layersName] = true)
-    (hh : isHardAt t (layerPath n) = true) :
-    (deleteLayer root t n).1 = .error .access ∨ (deleteLayer root t n).1 = .error .notDir := by
-  have hc : Canon t (layerPath n) := canon_pair t _ _ hd
-  have hf := rmRec_hard_fails root (maxKeyLen t) t (layerPath n) (layerPath_ne n) hc hh
-  rcases deleteLayer_cases root t n with ⟨h, _⟩ | ⟨_, hres⟩
-  · rw [h]; exact hf
-  · exfalso
-    rcases hres with hres | hres <;> rcases hf with hf | hf <;>
-      · rw [show depthFuel t = maxKeyLen t + 1 from rfl] at hres; rw [hres] at hf; cases hf
-
-theorem deleteLayer_frame (root : Bool) (t : FS) (n : Name) (hd : isDirAt t [layersName] = true)
-    (hnh : isHardAt t (layerPath n) = false) :
+theorem deleteLayer_frame (root : Bool) (t : FS) (n : Name) (hd : isDirAt t [layersName] = true) :
     Frame n t (deleteLayer root t n).2 := by
   have hc : Canon t (layerPath n) := canon_pair t _ _ hd
-  have hu := rmRec_untouched root (depthFuel t) t (layerPath n) (layerPath_ne n) hc hnh
+  have hu := rmRec_untouched root (depthFuel t) t (layerPath n) (layerPath_ne n) hc
   have hf1 : Frame n t (rmRec root (depthFuel t) t (layerPath n)).2 := frame_of_untouched hu
   rcases deleteLayer_cases root t n with ⟨h, _⟩ | ⟨h, _⟩
   · rw [h]; exact hf1
@@ -220,11 +207,7 @@ theorem deleteLayer_gone (root : Bool) (t : FS) (n : Name) (hd : isDirAt t [laye
     (hok : (deleteLayer root t n).1 = .ok ()) : Gone n (deleteLayer root t n).2 := by
   have hc : Canon t (layerPath n) := canon_pair t _ _ hd
   have hne := layerPath_ne n
-  have hnh : isHardAt t (layerPath n) = false := by
-    cases hh : isHardAt t (layerPath n) with
-    | false => rfl
-    | true => rcases deleteLayer_hard_fails root t n hd hh with h | h <;> · rw [h] at hok; cases hok
-  have hu := rmRec_untouched root (depthFuel t) t (layerPath n) hne hc hnh
+  have hu := rmRec_untouched root (depthFuel t) t (layerPath n) hne hc
   have hf1 : Frame n t (rmRec root (depthFuel t) t (layerPath n)).2 := frame_of_untouched hu
   rcases deleteLayer_cases root t n with ⟨h, e, he, hne'⟩ | ⟨h, hres⟩
   · rw [h, he] at hok; cases hok
@@ -232,12 +215,12 @@ theorem deleteLayer_gone (root : Bool) (t : FS) (n : Name) (hd : isDirAt t [laye
     have hgone1 : ∀ k, isPre (layerPath n) k = true →
         fget (rmRec root (depthFuel t) t (layerPath n)).2 k = none := by
       rcases hres with hres | hres
-      · exact rmRec_ok_gone root _ t _ hne hc hnh hb hres
+      · exact rmRec_ok_gone root _ t _ hne hc hb hres
       · have habs : fget t (layerPath n) = none := by
           cases hg : fget t (layerPath n) with
           | none => rfl
           | some v =>
-            exact absurd hres (rmRec_ne_notFound root _ t _ hne hc hnh (by simp [hg]))
+            exact absurd hres (rmRec_ne_notFound root _ t _ hne hc (by simp [hg]))
         have hs : (rmRec root (depthFuel t) t (layerPath n)).2 = t := rmRec_absent root _ t _ hne hc habs
         rw [hs]
         intro k hk
@@ -404,8 +387,7 @@ theorem tag_snd (b : Bool) (r : CreateRes) : (tag b r).2 = r.2 := by
   obtain ⟨res, s⟩ := r
   cases res <;> rfl
 
-theorem request_frame_lemma (root : Bool) (api : Api) (t : FS) (n : Name) (hd : isDirAt t [layersName] = true)
-    (hnh : isHardAt t (layerPath n) = false) :
+theorem request_frame_lemma (root : Bool) (api : Api) (t : FS) (n : Name) (hd : isDirAt t [layersName] = true) :
     Frame n t (request root api t n).2 := by
   unfold request
   simp only
@@ -437,8 +419,6 @@ theorem request_frame_lemma (root : Bool) (api : Api) (t : FS) (n : Name) (hd : 
       | ok s1 =>
         simp only
         have hf1 := (hw s1 hx).1
-        have hnh1 : isHardAt s1 (layerPath n) = false := by
-          unfold isHardAt at hnh ⊢; rw [(hw s1 hx).2]; exact hnh
         have hd1 := layersDir_of_frame hf1 hd
         cases readFile root s1 (tomlPath n) with
         | error e => exact hf1
@@ -446,7 +426,7 @@ theorem request_frame_lemma (root : Bool) (api : Api) (t : FS) (n : Name) (hd : 
           simp only
           split
           · exact hf1
-          · have hf2 := frame_trans hf1 (deleteLayer_frame root s1 n hd1 hnh1)
+          · have hf2 := frame_trans hf1 (deleteLayer_frame root s1 n hd1)
             generalize deleteLayer root s1 n = r at hf2
             obtain ⟨res, s2⟩ := r
             cases res with
